@@ -3,15 +3,15 @@
 (* The group types of crrl as (curve, codec, equality) bundles, dispatched *)
 (* on the group name used in traces.                                       *)
 (***************************************************************************)
-EXTENDS Quotients
+EXTENDS Quotients, Gls254
 
-GroupNames == {"ed25519", "ed448", "p256", "secp256k1", "ristretto255", "decaf448", "jq255e", "jq255s"}
+GroupNames == {"ed25519", "ed448", "p256", "secp256k1", "ristretto255", "decaf448", "jq255e", "jq255s", "gls254"}
 CurveOf(g) == CASE g \in {"ed25519", "ristretto255"} -> Ed25519
                 [] g \in {"ed448", "decaf448"} -> Ed448
                 [] g = "p256" -> P256 [] g = "secp256k1" -> Secp256k1
                 [] g = "jq255e" -> Jq255e [] g = "jq255s" -> Jq255s
 \* order of the scalar field attached to the group type
-ScalarOrder(g) == CurveOf(g).n
+ScalarOrder(g) == IF g = "gls254" THEN RGLS254 ELSE CurveOf(g).n
 \* the encoding `encode` (or encode_uncompressed) must return
 GEncode(g, P) == CASE g = "ed25519" -> EdEncode(Ed25519, 32, P)
                    [] g = "ed448" -> EdEncode(Ed448, 57, P)
@@ -19,6 +19,7 @@ GEncode(g, P) == CASE g = "ed25519" -> EdEncode(Ed25519, 32, P)
                    [] g = "ristretto255" -> RistEncode(P)
                    [] g = "decaf448" -> DecafEncode(P)
                    [] g \in {"jq255e", "jq255s"} -> JqEncode(CurveOf(g), P)
+                   [] g = "gls254" -> GlsEncode(P)
 GEncodeC(g, P) == Sec1EncodeC(CurveOf(g), P)
 GDecode(g, b) == CASE g = "ed25519" -> EdDecode(Ed25519, 32, b)
                    [] g = "ed448" -> EdDecode(Ed448, 57, b)
@@ -26,6 +27,7 @@ GDecode(g, b) == CASE g = "ed25519" -> EdDecode(Ed25519, 32, b)
                    [] g = "ristretto255" -> RistDecode(b)
                    [] g = "decaf448" -> DecafDecode(b)
                    [] g \in {"jq255e", "jq255s"} -> JqDecode(CurveOf(g), b)
+                   [] g = "gls254" -> GlsDecode(b)
 \* equality of group elements (identity of points on the plain curves)
 \* and of cosets in the quotient groups
 GEq(g, P, Q) ==
@@ -33,11 +35,11 @@ GEq(g, P, Q) ==
       [] g = "decaf448" -> PDbl(Ed448, PSub(Ed448, P, Q)) = TedNeutral
       [] g \in {"jq255e", "jq255s"} -> PSub(CurveOf(g), P, Q) \in {Inf, JqN}
       [] OTHER -> P = Q
-GNeutral(g) == Neutral(CurveOf(g))
-GAdd(g, P, Q) == PAdd(CurveOf(g), P, Q)
-GNeg(g, P) == PNeg(CurveOf(g), P)
-GMul(g, k, P) == SMul(CurveOf(g), k, P)
-GBase(g) == IF g = "decaf448" THEN DecafBase ELSE CurveOf(g).G
+GNeutral(g) == IF g = "gls254" THEN GlsNeutral ELSE Neutral(CurveOf(g))
+GAdd(g, P, Q) == IF g = "gls254" THEN GlsAdd(P, Q) ELSE PAdd(CurveOf(g), P, Q)
+GNeg(g, P) == IF g = "gls254" THEN GlsNeg(P) ELSE PNeg(CurveOf(g), P)
+GMul(g, k, P) == IF g = "gls254" THEN GlsMul(k, P) ELSE SMul(CurveOf(g), k, P)
+GBase(g) == CASE g = "decaf448" -> DecafBase [] g = "gls254" -> GlsBase [] OTHER -> CurveOf(g).G
 \* byte-string-to-group maps
 GMap(g, b) == CASE g = "ristretto255" -> RistOneWayMap(b) [] g = "decaf448" -> DecafOneWayMap(b)
 =============================================================================
